@@ -162,7 +162,7 @@ def fam_submodules():
     """submodules that arrive later, in two revisions, nested includes, a user of their definitions"""
     sm = module("sm", includes=[("ss", None)], tds=["mt"], body="  typedef mt { type st; }\n  leaf m { type mt; }\n  uses sg;\n")
     s1 = module("ss", belongs="sm", prefix="sm", rev=D1, includes=[("s2", None)], imports=[("gm", "gm", None)], tds=["st"], body=
-                "  typedef st { type string; }\n  grouping sg { leaf from-old { type st; } }\n  identity old-id;\n  leaf in-ss { type s2t; }\n"
+                "  typedef st { type string; }\n  grouping sg { leaf from-old { type st; } }\n  identity old-id;\n  identity old-child { base old-id; }\n  leaf in-ss { type s2t; }\n"
                 "  container viaimport { uses gm:gg; }\n")
     gm = module("gm", tds=["gt"], body="  typedef gt { type int64; }\n  grouping gg { leaf g1 { type gt; } }\n")
     s1b = module("ss", belongs="sm", prefix="sm", rev=D2, tds=["st"], body=
@@ -172,7 +172,11 @@ def fam_submodules():
                 "  identity d-old { base m:old-id; }\n  identity d-s2 { base m:s2-id; }\n  leaf x { type m:st; }\n")
     sv = module("sv", imports=[("sm", "m", None)], body="  identity d-new { base m:new-id; }\n  leaf y { type m:mt; }\n")
     lone = module("s9", belongs="nobody", prefix="nb", tds=["lt"], body="  typedef lt { type string; }\n  leaf z { type lt; }\n")
-    return [sm, s1, s1b, s2, su, sv, lone, gm]
+    # a self-contained pair of revisions: the superseded one stays clean, so that its identities remain in the dump
+    vm = module("vm", includes=[("vs", None)], body="  leaf v { type string; }\n")
+    v1 = module("vs", belongs="vm", prefix="vm", rev=D1, body="  identity v-old;\n  identity v-child { base v-old; }\n")
+    v2 = module("vs", belongs="vm", prefix="vm", rev=D2, body="  identity v-new;\n")
+    return [sm, s1, s1b, s2, su, sv, lone, gm, vm, v1, v2]
 
 
 def fam_chains():
@@ -261,7 +265,7 @@ def gen_ops(rnd, texts, maxlen=10):
 CORPUS = dict(
     namespaces=["L0,P,L1,P,P", "L0,L2,P,L1,P", "L1,P,L0,P"],                               # D55 byNS
     submodules=["L0,L7,L1,L3,P,L2,L4,P", "L0,L7,L1,L3,P,L2,P,P", "L0,P,L1,P,L3,P,L7,P",     # D57, D62, late submodules
-                "L4,L5,P,L0,L2,P,L1,L3,L7,P", "L6,P,L0,L2,P"],
+                "L4,L5,P,L0,L2,P,L1,L3,L7,P", "L6,P,L0,L2,P", "L8,L9,P,L10,P,P"],
     typedefs=["L0,L2,L3,P,L1,P", "L4,P,L0,P,L1,P", "L3,P,L2,P,L0,P,P"],                    # D56 re-binding, late targets
     identities=["L2,P,L0,P,L1,P", "L3,L1,P,L0,P,P", "L0,L1,L2,L3,P,P"],                    # D56 memoised errors, D42
     chains=["L0,L1,P,L2,P,L3,P", "L4,L0,P,L1,P", "L2,L0,P,L3,P,L1,P"],                      # failing include, D41
